@@ -164,10 +164,64 @@ def gen_intervals(repo):
     out.append("end Mingus.Gen.Intervals")
     return "\n".join(out) + "\n"
 
+# ---------------------------------------------------------------- scales
+def class_attr(cls, name):
+    for n in cls.body:
+        if isinstance(n, ast.Assign) and len(n.targets) == 1 and getattr(n.targets[0], "id", None) == name:
+            return lit(n.value)
+    return None
+
+def method(cls, name):
+    for n in cls.body:
+        if isinstance(n, ast.FunctionDef) and n.name == name:
+            return n
+    return None
+
+def gen_scales(repo):
+    t = parse(repo, "mingus/core/scales.py")
+    classes = [n for n in t.body if isinstance(n, ast.ClassDef) and n.bases and getattr(n.bases[0], "id", None) == "_Scale"]
+    order, modes, derived = [], [], []
+    for c in classes:
+        typ = class_attr(c, "type")
+        order.append((c.name, typ))
+        asc = method(c, "ascending")
+        if asc is None:
+            raise Shape("%s has no ascending()" % c.name)
+        for mname in ("ascending", "descending"):
+            m = method(c, mname)
+            if m is None:
+                continue
+            b = body_wo_doc(m)
+            src = [ast.unparse(x) for x in b]
+            # mode: notes = Diatonic(self.tonic, (a, b)).ascending()[:-1]
+            if len(b) == 2 and src[0].startswith("notes = Diatonic(self.tonic, (") and src[1] == "return notes * self.octaves + [notes[0]]":
+                tup = lit(b[0].value.value.func.value.args[1])
+                modes.append((c.name, list(tup)))
+                continue
+            # derived: notes = <base> ; notes[i] = augment|diminish(notes[i]) ... ; return notes * self.octaves + [notes[0]]
+            if src and src[-1] == "return notes * self.octaves + [notes[0]]" and src[0].startswith("notes = ") and \
+               all(ast.unparse(x).startswith("notes[") for x in b[1:-1]) and not isinstance(b[0].value, ast.List):
+                alts = []
+                for x in b[1:-1]:
+                    i = lit(x.targets[0].slice)
+                    call = x.value
+                    if not (is_call(call) and call.func.id in ("augment", "diminish") and ast.unparse(call.args[0]) == "notes[%d]" % i):
+                        raise Shape("%s.%s: unrecognised alteration %s" % (c.name, mname, ast.unparse(x)))
+                    alts.append((i, call.func.id))
+                derived.append((c.name, mname, src[0][len("notes = "):], alts))
+    out = ["namespace Mingus.Gen.Scales"]
+    out.append("def classOrder : List (List Char × List Char) := " + llist("(%s, %s)" % (lstr(a), lstr(b)) for a, b in order))
+    out.append("def modeTable : List (List Char × Int × Int) := " + llist("(%s, %s, %s)" % (lstr(n), lint(a[0]), lint(a[1])) for n, a in modes))
+    out.append("def derived : List (List Char × List Char × List Char × List (Nat × List Char)) := " +
+               llist("(%s, %s, %s, %s)" % (lstr(n), lstr(m), lstr(base), llist("(%d, %s)" % (i, lstr(op)) for i, op in alts)) for n, m, base, alts in derived))
+    out.append("end Mingus.Gen.Scales")
+    return "\n".join(out) + "\n"
+
 GENERATORS = {
     "Notes": gen_notes,
     "Keys": gen_keys,
     "Intervals": gen_intervals,
+    "Scales": gen_scales,
 }
 
 def main():
